@@ -280,6 +280,11 @@ fn gen_vacuum(seed: u64, tier: Tier) -> Scenario {
     let mut rv = Rng::new(seed, "vacuum-vec");
     if rv.chance(1, 2) {
         let d = s.ops.iter().find_map(|o| if let Op::Put(p) = o { p.emb.as_ref().map(|e| e.len()) } else { None }).unwrap_or(rv.range(2, 8) as usize);
+        // a document in front of them that is deleted before the compaction, so that the
+        // compaction really moves the later payloads and the index region
+        let mut pad = PutSpec { pay: Some(Pay::new(PK::Bin, rv.range(300, 5000) as usize, rv.next())), ts: Some(49), ..Default::default() };
+        pad.uri = Some("mv2://vec-tail/pad".into());
+        ins.push(Op::Put(pad));
         for k in 0..2 {
             let mut p = PutSpec { pay: Some(Pay::new(if k == 0 { PK::Bin } else { PK::Text }, rv.range(30, 700) as usize, rv.next())), ts: Some(50 + k), ..Default::default() };
             p.uri = Some(format!("mv2://vec-tail/{k}"));
@@ -292,6 +297,8 @@ fn gen_vacuum(seed: u64, tier: Tier) -> Scenario {
             ins.push(Op::Commit);
             ins.push(Op::UpdateUri { uri: "mv2://vec-tail/0".into(), spec: PutSpec { title: Some("retitled before vacuum".into()), ..Default::default() } });
         }
+        ins.push(Op::Commit);
+        ins.push(Op::DeleteUri { uri: "mv2://vec-tail/pad".into() });
     }
     ins.push(Op::Commit);
     if r.chance(1, 2) {
